@@ -1030,7 +1030,8 @@ class PlainQuantity(Generic[MagnitudeT], PrettyIPython, SharedRegistryObject):
     def __matmul__(self, other):
         return np.matmul(self, other)
 
-    __rmatmul__ = __matmul__
+    def __rmatmul__(self, other):
+        return np.matmul(other, self)
 
     def _truedivide_cast_int(self, a, b):
         t = self._REGISTRY.non_int_type
